@@ -1,7 +1,7 @@
 (* C10 — Token manager custody, mint authority and role transfers are exact and gated.
    Statements only; proofs in Proofs/TMFacts.v. *)
 From Coq Require Import String List NArith Lia.
-From Ax Require Import Lib.Bytes Lib.Mvx Model.Check Model.Env Model.TokenManager Proofs.TMFacts Gen.Generated.
+From Ax Require Import Lib.Bytes Lib.Mvx Model.Check Model.Env Model.TokenManager Proofs.TMFacts Proofs.TMCustody Gen.Generated.
 Import ListNotations.
 Open Scope N_scope.
 
@@ -78,7 +78,23 @@ Proof. exact roles_frame. Qed.
 Theorem c10_no_redeploy : forall t l c m n s, tm_token t <> [] -> deploy_interchain_token t l c m n s = None.
 Proof. exact deploy_refused_when_token_set. Qed.
 
+(* ---- history level (Proofs/TMCustody.v): lock/unlock custody over EVERY sequence of the sixteen operations by any callers
+   (other than the manager calling itself): holdings = initial holdings + everything taken - everything given.
+   taken_by / given_by are what one transaction takes in / gives out when it succeeds (0 when it fails). *)
+Theorem c10_custody_step : forall t l o self tok,
+  lockish t self tok ->
+  (forall c, top_ctx o = Some c -> t_self c = self /\ t_caller c <> self) ->
+  (match o with TIssueCallback s _ => s = self | _ => True end) ->
+  let '(t', l', out) := tstep t l o in
+  lockish t' self tok /\ bal l' self tok + given_by self o out = bal l self tok + taken_by o out.
+Proof. exact lock_custody_step. Qed.
+Theorem c10_custody_history : forall ops t l self tok, lockish t self tok -> ops_ok self ops ->
+  let '(t', l') := trun t l ops in
+  lockish t' self tok /\ bal l' self tok + total_given self t l ops = bal l self tok + total_taken t l ops.
+Proof. exact lock_custody_history. Qed.
+
 Print Assumptions c10_give_lock.
+Print Assumptions c10_custody_history.
 Print Assumptions c10_give_mint.
 Print Assumptions c10_transfer_role.
 Print Assumptions c10_accept_role.
@@ -94,3 +110,17 @@ Example pin_tm_endpoints : gen_tm_endpoints = ["acceptMintership"; "acceptOperat
 
 Check c10_give_lock.
 Check c10_roles_frame.
+
+(* non-vacuity: a lock/unlock manager, the service takes 50 then gives 20: holdings 30 = 0 + 50 - 20 *)
+Example c10_custody_nonvacuous :
+  let self := be_enc 32 32 in let svc := be_enc 32 9 in let u := be_enc 32 7 in let tok := str "TOK-123456" in
+  match tm_init self svc T_LOCK_UNLOCK (zeros 32) None (Some tok) with
+  | Some (t, _) =>
+      let l := [((svc, tok), 100)] in
+      let c v := {| t_self := self; t_caller := svc; t_now := 0; t_value := v |} in
+      let ops := [TTake (c {| cv_egld := 0; cv_esdt := [{| ep_token := tok; ep_nonce := 0; ep_amount := 50 |}] |}); TGive (c no_value) u 20] in
+      is_mint_type (tm_type t) = false /\ tm_token t = tok /\ tm_pending t = 0 /\
+      bal (snd (trun t l ops)) self tok = 30 /\ total_taken t l ops = 50 /\ total_given self t l ops = 20
+  | None => False
+  end.
+Proof. vm_compute. repeat split; reflexivity. Qed.
